@@ -173,6 +173,11 @@ def _eqopts(c):
     return o
 
 
+def _edge(c, k):
+    """a band edge as the caller wrote it: the float, or (case field intedges) the same whole number as a Python int"""
+    return int(c[k]) if c.get('intedges') else c[k]
+
+
 def build(c, L, pol, cal=None):
     """The real stimulus for case `c` at level L and polarity pol."""
     from psiaudio import stim
@@ -238,20 +243,20 @@ def build(c, L, pol, cal=None):
                                 **_kw('notch_noise', c, seed=c['seed'], polarity=pol))
     if k == 'bln':
         if c.get('chunks'):
-            f = stim.BandlimitedNoiseFactory(fs, c['seed'], L, c['fl'], c['fh'], 1, 1, 80, calibration=cal,
+            f = stim.BandlimitedNoiseFactory(fs, c['seed'], L, _edge(c, 'fl'), _edge(c, 'fh'), 1, 1, 80, calibration=cal,
                                             **_kw('BandlimitedNoiseFactory', c, polarity=pol,
                                                   discard_initial_samples=c.get('discard', True)))
             return _run(f, c)
-        return stim.bandlimited_noise(fs, L, c['fl'], c['fh'], c['n'] / fs, calibration=cal,
+        return stim.bandlimited_noise(fs, L, _edge(c, 'fl'), _edge(c, 'fh'), c['n'] / fs, calibration=cal,
                                       **_kw('bandlimited_noise', c, polarity=pol, seed=c['seed']))
     if k == 'fir':
         if c.get('factory'):
             # (the factory's own default seed is None = not reproducible: always given)
-            f = stim.BandlimitedFIRNoiseFactory(fs, c['fl'], c['fh'], L, seed=c['seed'], calibration=cal,
+            f = stim.BandlimitedFIRNoiseFactory(fs, _edge(c, 'fl'), _edge(c, 'fh'), L, seed=c['seed'], calibration=cal,
                                                 **_kw('BandlimitedFIRNoiseFactory', c, ntaps=c['ntaps'], polarity=pol,
                                                       **dict({'equalize': c['equalize']}, **_eqopts(c))))
             return _run(f, c)
-        return stim.bandlimited_fir_noise(fs, L, c['fl'], c['fh'], c['n'] / fs, calibration=cal,
+        return stim.bandlimited_fir_noise(fs, L, _edge(c, 'fl'), _edge(c, 'fh'), c['n'] / fs, calibration=cal,
                                           **_kw('bandlimited_fir_noise', c, ntaps=c['ntaps'], polarity=pol,
                                                 seed=c['seed'], equalize=c['equalize']))
     if k == 'shaped':
@@ -676,6 +681,8 @@ def gen_case(rng, kind, calkind, quick):
         if kind in ('bln', 'fir'):
             fl = float(rng.randint(500, 1500))
             c.update(fl=fl, fh=float(rng.randint(int(fl) + 300, int(fs / 4) - 100)))
+        if kind in ('bln', 'fir') and rng.random() < 0.3:
+            c['intedges'] = True        # representation of the same value: band edges written as whole Python ints
         if kind == 'fir':
             c.update(ntaps=rng.choice([51, 101, 201]), equalize=rng.random() < 0.5)
         if kind == 'shaped':
@@ -984,14 +991,14 @@ class C08(FloatSpec):
                 f = stim.NotchFilterFactory(fs=fs, notch_frequency=c['fn'], q=c['q'], input_factory=nf)
                 b, a, z0, discard, pin, pout = f.b, f.a, 'zero', 0, pol, 1.0
         elif k == 'bln':
-            f = stim.BandlimitedNoiseFactory(fs, seed, L, c['fl'], c['fh'], 1, 1, 80, polarity=1, calibration=cal,
+            f = stim.BandlimitedNoiseFactory(fs, seed, L, _edge(c, 'fl'), _edge(c, 'fh'), 1, 1, 80, polarity=1, calibration=cal,
                                             discard_initial_samples=c.get('discard', True))
             # code as it is: state = lfilter_zi(b, a) (unit-step steady state, NOT scaled with the level), then
             # ceil(fs) samples are discarded; its zero-input response has decayed to < 1e-80 by then (see oracle)
             low, high, b, a = f.low, f.high, f.b, f.a
             z0, discard, pin, pout = fl(f.initial_bp_zi), int(np.ceil(fs)), 1.0, pol
         elif k == 'fir':
-            f = stim.BandlimitedFIRNoiseFactory(fs, c['fl'], c['fh'], L, ntaps=c['ntaps'], polarity=1, seed=seed,
+            f = stim.BandlimitedFIRNoiseFactory(fs, _edge(c, 'fl'), _edge(c, 'fh'), L, ntaps=c['ntaps'], polarity=1, seed=seed,
                                                 calibration=cal, **dict({'equalize': c['equalize']}, **_eqopts(c)))
             low, high, b, a = -f.scale, f.scale, f.taps, [1.0]
             z0, discard, pin, pout = fl(f.initial_zi), len(f.initial_zi), 1.0, pol
